@@ -3,4 +3,5 @@
 //@include mb2_tagtype.rs
 //@include mb2_core.rs
 //@include mb2_dstlen.rs
+//@include mb2_getters.rs
 fn main() {}
